@@ -14,6 +14,9 @@ import (
 
 // NewSourceSink returns a Source and Sink implementation for this platform
 func NewSourceSink(addr netip.Addr, useDriver bool) (SourceSinkHandle, error) {
+	if h, ok, err := verifSourceSink(addr, useDriver); ok {
+		return h, err
+	}
 	sink, err := NewSinkLinux(addr)
 	if err != nil {
 		return SourceSinkHandle{}, fmt.Errorf("NewSourceSink failed to make SinkLinux: %w", err)
